@@ -78,6 +78,14 @@ def poll(ctx, mgr, ack, status, events):
     return llsd.parse_xml(f3.response.content), False
 
 
+
+def _fresh_queue(region):
+    """per-path reset of the region's event-queue state, constructed directly (NOT through EventQueueManager.clear(), which is
+    code under test: a clear() that forgets less must not leak one path's cache into the next path's run)"""
+    from hippolyzer.lib.proxy.region import EventQueueManager
+    region.eq_manager = EventQueueManager(region)
+
+
 def run(polls):
     sw = Swallower()
     f = px.reset([sw])
@@ -87,7 +95,7 @@ def run(polls):
     from hippolyzer.lib.proxy.caps import CapType
     region.caps["Seed"] = (CapType.NORMAL, "https://test.localhost:4/foo")
     region.register_cap("EventQueueGet", "https://sim.example" + EQ_URL_PATH)
-    region.eq_manager.clear()
+    _fresh_queue(region)
     n_regions0 = len(px.SESSION.regions)
     next_tag = [0]
     delivered = []          # tags the viewer received, in order (excluding replays of a repeated ack)
@@ -219,7 +227,7 @@ def setup_stack():
     from hippolyzer.lib.proxy.caps import CapType
     region.caps["Seed"] = (CapType.NORMAL, "https://test.localhost:4/foo")
     region.register_cap("EventQueueGet", "https://sim.example" + EQ_URL_PATH)
-    region.eq_manager.clear()
+    _fresh_queue(region)
     ann_cleanup()
     return sw, f, ctx, mgr, region
 
@@ -339,6 +347,61 @@ def repoll(chain: int, shape: int, inj_first: bool, reps: int, inj_mid: bool) ->
 
 
 shard(repoll, "chain", range(5), ACK_LABELS, globals())
+
+
+def run_teardown(chain, shape, inj_first, rep, inj_after):
+    sw, f, ctx, mgr, region = setup_stack()
+    a, id1 = ACK_CHAINS[chain]
+    k1, mask1 = FIRST_SHAPES[shape]
+    pending = []
+    if inj_first:
+        region.eq_manager.inject_event(ev(100))
+        pending.append(100)
+    tags1 = list(range(k1))
+    sw.tags = set(t for i, t in enumerate(tags1) if mask1 & (1 << i))
+    body, cached = poll_raw(ctx, mgr, a, {"id": id1, "events": [ev(t) for t in tags1]})
+    if cached is not False or body != expected_body(id1, tags1, sw.tags, pending):
+        return False
+    last = body
+    sw.tags = set()
+    if rep and last is not None:
+        body, cached = poll_raw(ctx, mgr, a, {"id": id1 + 1, "events": [ev(50)]})
+        if not cached or body != last:
+            return False
+    # the region goes away (DisableSimulator / CloseCircuit / teleport away) and is entered again: a new viewer-side queue
+    region.mark_dead()
+    if region.circuit is not None:
+        region.circuit.is_alive = True
+    pending = []
+    if inj_after:
+        region.eq_manager.inject_event(ev(300))
+        pending.append(300)
+    body, cached = poll_raw(ctx, mgr, None, {"id": 7, "events": [ev(60)]})
+    if cached is not False:
+        return False                                  # nothing from before the teardown may be replayed
+    if body != expected_body(7, [60], set(), pending):
+        return False
+    body, cached = poll_raw(ctx, mgr, 7, {"id": 8, "events": [ev(90)]})
+    if cached is not False or body != expected_body(8, [90], set(), []):
+        return False
+    if region.eq_manager.take_injected_events():
+        return False
+    return sw.seen == tags1 + [60, 90]
+
+
+@harness(pre=["0 <= chain < 5", "0 <= shape < 7"], post="_", timeout=600,
+         note="teardown histories poll(ack a) ; [repeat poll(ack a)] ; region marked dead (real ProxiedRegion.mark_dead) and "
+              "re-entered ; poll(ack undef) ; poll(ack 7): for every first ack in {undef, 0, -1, 1} and every first-response "
+              "shape (0..2 events, any subset swallowed, with/without injection): the first poll of the re-opened queue is "
+              "forwarded to the simulator - nothing cached before the teardown is replayed - and carries exactly the "
+              "simulator's new event plus an injection made after the teardown; addons see each simulator event once, in order",
+         covers=COVERS + (_P + "region:EventQueueManager.clear", _P + "region:ProxiedRegion.mark_dead"))
+def teardown_requeue(chain: int, shape: int, inj_first: bool, rep: bool, inj_after: bool) -> bool:
+    return run_teardown(small(chain, 0, 4), small(shape, 0, 6), bool(inj_first), bool(rep), bool(inj_after))
+
+
+shard(teardown_requeue, "chain", range(5), ACK_LABELS, globals())
+
 
 
 # ---------------------------------------------------------------------------------------------------------------------
